@@ -83,6 +83,7 @@ func runSolver(ctx context.Context, sr solverRun, file string, timeout time.Dura
 }
 
 var solveCache sync.Map // hash -> *cached
+var keyLocks sync.Map   // hash -> *sync.Mutex
 
 type cached struct {
 	status, solver, model string
@@ -121,6 +122,10 @@ func dischargeOne(ob *Obligation, cfg SolverCfg) {
 	ob.Size = len(text)
 	sum := sha256.Sum256([]byte(text))
 	key := hex.EncodeToString(sum[:12])
+	// identical obligations (same text on different paths) are solved once
+	mu, _ := keyLocks.LoadOrStore(key, &sync.Mutex{})
+	mu.(*sync.Mutex).Lock()
+	defer mu.(*sync.Mutex).Unlock()
 	if c, ok := solveCache.Load(key); ok {
 		cc := c.(*cached)
 		ob.Status, ob.Solver, ob.Time, ob.Model = cc.status, cc.solver+"(cached)", 0, cc.model
@@ -138,8 +143,12 @@ func dischargeOne(ob *Obligation, cfg SolverCfg) {
 	defer os.Remove(file)
 	ctx := context.Background()
 	total := 0.0
-	// stage 1: fast attempt
-	st, _, el := runSolver(ctx, solvers[0], file, cfg.Quick)
+	// stage 1: fast attempt (vacuity covers get one second: only a quick 'unsat' matters for them)
+	q := cfg.Quick
+	if ob.Cover {
+		q = time.Second
+	}
+	st, _, el := runSolver(ctx, solvers[0], file, q)
 	total += el
 	agree := map[string]bool{}
 	if st == "unsat" {
@@ -151,6 +160,12 @@ func dischargeOne(ob *Obligation, cfg SolverCfg) {
 		return
 	}
 	quickSat := st == "sat"
+	if strings.Contains(ob.Name, "!") && st != "unsat" {
+		// known-finding probe (expected to fail): no escalation
+		ob.Status, ob.Solver, ob.Time = st, "z3-new", total
+		solveCache.Store(key, &cached{ob.Status, ob.Solver, "", total})
+		return
+	}
 	if ob.Cover {
 		// vacuity cover: only a quick 'unsat' matters; anything else means the path is (possibly) feasible
 		ob.Status, ob.Solver, ob.Time = st, "z3-new", total
@@ -187,6 +202,9 @@ func dischargeOne(ob *Obligation, cfg SolverCfg) {
 		}
 		if r.st == "sat" && final != "sat" {
 			final, fsolver = "sat", r.name
+			if len(agree) == 0 {
+				break // a model exists: no point waiting for the slower solvers
+			}
 		}
 		if r.st == "timeout" && final == "unknown" {
 			final = "timeout"
@@ -218,4 +236,56 @@ func dischargeOne(ob *Obligation, cfg SolverCfg) {
 		os.Remove(mfile)
 	}
 	solveCache.Store(key, &cached{ob.Status, ob.Solver, ob.Model, total})
+}
+
+// SplitGoal breaks a goal into conjunct-level sub-goals (through forall and implication).
+func SplitGoal(t *Term) []*Term {
+	switch t.Op {
+	case "and":
+		var out []*Term
+		for _, a := range t.Args {
+			out = append(out, SplitGoal(a)...)
+		}
+		return out
+	case "=>":
+		var out []*Term
+		for _, s := range SplitGoal(t.Args[1]) {
+			out = append(out, Implies(t.Args[0], s))
+		}
+		return out
+	case "forall":
+		var out []*Term
+		for _, s := range SplitGoal(t.Args[0]) {
+			out = append(out, &Term{Op: "forall", S: BoolS, Bound: t.Bound, Args: []*Term{s}})
+		}
+		return out
+	case "ite":
+		if t.S == BoolS {
+			var out []*Term
+			for _, s := range SplitGoal(t.Args[1]) {
+				out = append(out, Implies(t.Args[0], s))
+			}
+			for _, s := range SplitGoal(t.Args[2]) {
+				out = append(out, Implies(Not(t.Args[0]), s))
+			}
+			return out
+		}
+	}
+	return []*Term{t}
+}
+
+// Probe re-checks the conjuncts of a failed obligation separately and returns the ones that fail.
+func Probe(ob *Obligation, cfg SolverCfg) []*Obligation {
+	var subs []*Obligation
+	for i, g := range SplitGoal(ob.Goal) {
+		subs = append(subs, &Obligation{Name: fmt.Sprintf("%s~%d", ob.Name, i), Premises: ob.Premises, Goal: g, Kind: ob.Kind})
+	}
+	Discharge(subs, cfg)
+	var bad []*Obligation
+	for _, s := range subs {
+		if s.Status != "unsat" {
+			bad = append(bad, s)
+		}
+	}
+	return bad
 }
